@@ -769,11 +769,11 @@ func (av *Array) privateDetailedType() px.Type {
 			av.detailedType = av.privateReducedType()
 		} else {
 			types := make([]px.Type, len(av.elements))
-			av.detailedType = NewTupleType(types, nil)
-			verifhook.Point("array.detailed.published")
 			for idx := range types {
 				types[idx] = DefaultAnyType()
 			}
+			av.detailedType = NewTupleType(types, nil)
+			verifhook.Point("array.detailed.published")
 			for idx, element := range av.elements {
 				types[idx] = px.DetailedValueType(element)
 			}
